@@ -106,6 +106,18 @@ def scenario(params, ch):
                             w.inject("c0", first.data, note="replay")
                         else:
                             w.inject("s", first.data, client_addr=w.clients[0].addr, note="replay")
+        if "rdisc" in opts:
+            # the RECEIVING side disconnects right after it was handed the message, while the sender (whose acks are
+            # lost) keeps retransmitting it: the connection object is still fed until the peer has noticed
+            recv_end = "s" if sender == "c" else "c"
+            w.run(20, lambda w_: sum(mon.delivered[recv_end].values()) >= 1)
+            try:
+                if recv_end == "c":
+                    w.clients[0].client.disconnect()
+                else:
+                    w.server_conn(0).disconnect()
+            except Exception as e:
+                ch.flag("exception", "disconnect() raises %s" % type(e).__name__, repr(e))
         run_lag(80)
         if macro == "idle4":
             run_lag(256)
@@ -153,6 +165,11 @@ def params_list(tier):
             if direction == "c2s":
                 for o in (("cs|oncb",) if tier == "quick" else ("cs|oncb", "sc|oncb", "cs|oncb|dt60")):
                     out.append((direction, msgs + (("small", "none"),), "none", o, 1, 0))
+            # the receiver disconnects between the first copy and a retransmission (acks towards the sender are lost)
+            if any(r != "none" for _, r in msgs):
+                for o in (("cs|rdisc",) if tier == "quick" else ("cs|rdisc", "sc|rdisc", "cs|rdisc|ka0.5")):
+                    out.append((direction, msgs, "none", o, 1, 100))
+                    out.append((direction, msgs, "none", o, 8, 0))
             # the same with every counter a few numbers below the 16-bit wrap
             for macro in (("burst",) if tier == "quick" else ("none", "burst")):
                 out.append((direction, msgs, macro, "cs|wrap", 1, 0))
